@@ -892,7 +892,12 @@ def c12_inrun(rec, st, kappa_max=1e6):
                     break
             if cand is not None and cand.xl is not None:
                 st["c12.d_checked"] += 1
-                tolx = [1e-12 * max(1.0, abs(a)) for a in xf]
+                # same rounding scale as C01.d: the largest magnitude each coordinate has had in this run
+                seen = getattr(ps, "scale_seen", None)
+                seen_full = np.zeros(info["fixed_idx"].size)
+                if seen is not None and seen.shape == info["factor"].shape:
+                    seen_full[~info["fixed_idx"]] = seen * np.abs(info["factor"]) + np.abs(info["shift"])
+                tolx = [1e-12 * max(1.0, abs(a), sc) for a, sc in zip(xf, seen_full.tolist())]
                 if any(abs(a - b) > t for a, b, t in zip(xf.tolist(), cand.xl, tolx)):
                     out.append(Viol("C12", "d", "the value recorded for the new interpolation point was measured at a "
                                     "different (projected) point: distance %.3g"
